@@ -65,6 +65,10 @@ func runC17(c *Ctx) {
 			}
 			return true
 		})
+		if apply == nil && name == "DidChange" {
+			// the update made inside a helper of the package that hands back the document Apply returned
+			apply, _, _ = applyThroughHelper(p, fd)
+		}
 		if apply == nil {
 			c.viol("C17.R1", key+"|applies-changes", c.pos(fd.Pos()), name+" no longer applies the change to the cached template document")
 			continue
@@ -598,6 +602,25 @@ func runC17(c *Ctx) {
 							}
 							return true
 						})
+						if !indexes {
+							// a helper that applies the changes to the document it is given (d.applyChanges(changes)): the
+							// call is the application, and it is made under the mutex
+							appliesIn := false
+							ast.Inspect(hfd.Body, func(m ast.Node) bool {
+								if hc, ok := m.(*ast.CallExpr); ok {
+									if hse, ok := hc.Fun.(*ast.SelectorExpr); ok && hse.Sel.Name == "Apply" {
+										appliesIn = true
+									}
+								}
+								return true
+							})
+							if appliesIn {
+								n++
+								if len(normHeld(heldAtDeep(p, fd, x), true)) == 0 {
+									okL = false
+								}
+							}
+						}
 						if indexes {
 							n++
 							if len(normHeld(heldAtDeep(p, fd, x), false)) == 0 && len(normHeld(heldAtDeep(p, hfd, hfd.Body), false)) == 0 {
